@@ -1,5 +1,460 @@
-/- Line-protocol handler for C12 (stub until the model exists). -/
-import NoulithModel.Common
+/- Line-protocol handler for C12.
+
+Requests (space separated tokens, no spaces inside a token):
+  fresh  <K> <env> <val> <pat>            `assign` in a fresh child frame declaring with `anything`
+                                          (catch clause / `for` binding);   ok <dump> | throw
+  assign <K> <env> <val> <pat>            `assign(env, pat, None, val)` in the base frame (`pat = v`, and
+                                          `pat := v` once the parser wrapped the items in annotations)
+  switch <K> <env> <val> <pat> <pat> …    first arm that accepts;            ok <i>;<dump> | throw
+  bind   <K> <env> <vals> <pat> …         lambda parameters against the argument list `[v,…]`
+  hist   <K> <env> <stmt> …               statement history (see `NoulithModel.Impl.PatternStmt`)
+  istype <ty> <val>                       `v is T`                           ok 0|1 | throw
+  typeof <val>                            name of `type(v)`
+
+<dump> = `[v0,…]`: the values of the pool names 0..K-1 visible afterwards (`U` = unbound).
+Values use the canonical text of `vharness::canon` plus `T:<type>` for type objects and `F<n>` for
+function tokens (both are printed back as `<func>`).
+Patterns: `U` | `I<n>` | `X<n>[v,…]` | `A(p)` | `A(p,v)` | `D(p,v)` | `S(p,…)` | `L(p,…)` | `P(p)` |
+`O(a,b)` | `N(a,b)` | `V(v)` | `B<builtin>(p,…)` | `C<sid>(p,…)`.
+Response: `<impl>\t<spec>\t<diagnostics>`. -/
+import NoulithModel.Spec.Match
+import NoulithModel.Spec.TypedStore
+
 namespace Noulith.DriverC12
-def handle (_args : List String) : String := "bad-op"
+open Noulith Noulith.C12
+
+/-! ### rendering -/
+
+def hex16 (n : Nat) : String :=
+  String.ofList ((List.range 16).reverse.map fun i => hexDigitChar (n / 16 ^ i % 16))
+
+def utf8Enc (c : Nat) : List Nat :=
+  if c < 128 then [c]
+  else if c < 2048 then [192 + c / 64, 128 + c % 64]
+  else if c < 65536 then [224 + c / 4096, 128 + c / 64 % 64, 128 + c % 64]
+  else [240 + c / 262144, 128 + c / 4096 % 64, 128 + c / 64 % 64, 128 + c % 64]
+
+def renderF (b : Nat) : String :=
+  match floatReal b with
+  | .nan => "f:nan"
+  | _ => "f:" ++ hex16 b
+
+def renderFc (b : Nat) : String :=
+  match floatReal b with
+  | .nan => "nan"
+  | _ => hex16 b
+
+partial def renderVal : Val → String
+  | .null => "null"
+  | .int n => toString n
+  | .rat q => s!"{q.num}/{q.den}"
+  | .float b => renderF b
+  | .complex r i => s!"c:{renderFc r}:{renderFc i}"
+  | .str cs => "s:" ++ hexOfBytes (cs.flatMap utf8Enc)
+  | .list xs => "[" ++ joinWith "," (xs.map renderVal) ++ "]"
+  | .dict ks vs =>
+    let items := (ks.zip vs).map fun (k, v) => (renderVal k, renderVal v)
+    let sorted := items.toArray.qsort (fun a b => a.1 < b.1 || (a.1 == b.1 && a.2 < b.2)) |>.toList
+    "{" ++ joinWith "," (sorted.map fun (k, v) => k ++ ":" ++ v) ++ "}"
+  | .vector xs => "v[" ++ joinWith "," (xs.map renderVal) ++ "]"
+  | .bytes bs => "b:" ++ hexOfBytes bs
+  | .stream xs => "stream[" ++ joinWith "," (xs.map renderVal) ++ "]"
+  | .streamInf => "stream-inf"
+  | .func _ => "<func>"
+  | .type _ => "<func>"
+  | .inst sid fs => s!"inst:S{sid}(" ++ joinWith "," (fs.map renderVal) ++ ")"
+
+def tyName : Ty → String
+  | .null => "nulltype" | .int => "int" | .rational => "rational" | .float => "float"
+  | .complex => "complex" | .number => "number" | .string => "str" | .list => "list"
+  | .dict => "dict" | .vector => "vector" | .bytes => "bytes" | .stream => "stream"
+  | .func => "func" | .type => "type" | .any => "anything" | .structInstance => "struct_instance"
+  | .struct s => s!"S{s}" | .satisfying p => s!"sat{p}"
+
+/-! ### parsing -/
+
+abbrev P (α : Type) := List Char → Option (α × List Char)
+
+def pNat : P Nat := fun cs =>
+  let ds := cs.takeWhile Char.isDigit
+  if ds.isEmpty then none else some ((String.ofList ds).toNat!, cs.drop ds.length)
+
+def pLit (s : String) : P Unit := fun cs =>
+  let l := s.toList
+  if cs.take l.length == l then some ((), cs.drop l.length) else none
+
+def pHexRun : P (List Nat) := fun cs =>
+  let ds := cs.takeWhile fun c => (hexDigitVal c).isSome
+  match unhexChars ds with
+  | some bs => some (bs, cs.drop ds.length)
+  | none => none
+
+def utf8Dec : List Nat → List Nat
+  | [] => []
+  | b :: rest =>
+    if b < 128 then b :: utf8Dec rest
+    else if b < 224 then
+      match rest with
+      | b1 :: r => ((b - 192) * 64 + (b1 - 128)) :: utf8Dec r
+      | _ => []
+    else if b < 240 then
+      match rest with
+      | b1 :: b2 :: r => ((b - 224) * 4096 + (b1 - 128) * 64 + (b2 - 128)) :: utf8Dec r
+      | _ => []
+    else
+      match rest with
+      | b1 :: b2 :: b3 :: r => ((b - 240) * 262144 + (b1 - 128) * 4096 + (b2 - 128) * 64 + (b3 - 128)) :: utf8Dec r
+      | _ => []
+
+def parseTyName (s : String) : Option Ty :=
+  match s with
+  | "nulltype" => some .null | "int" => some .int | "rational" => some .rational
+  | "float" => some .float | "complex" => some .complex | "number" => some .number
+  | "str" => some .string | "list" => some .list | "dict" => some .dict | "vector" => some .vector
+  | "bytes" => some .bytes | "stream" => some .stream | "func" => some .func | "type" => some .type
+  | "anything" => some .any | "struct_instance" => some .structInstance
+  | _ =>
+    if s.startsWith "sat" then (s.drop 3).toString.toNat?.map Ty.satisfying
+    else if s.startsWith "S" then (s.drop 1).toString.toNat?.map Ty.struct
+    else none
+
+def pTy : P Ty := fun cs =>
+  let ds := cs.takeWhile fun c => c.isAlphanum || c == '_'
+  match parseTyName (String.ofList ds) with
+  | some t => some (t, cs.drop ds.length)
+  | none => none
+
+def hexNat (bs : List Nat) : Nat := bs.foldl (fun a b => a * 256 + b) 0
+
+def pFloatBits : P Nat := fun cs =>
+  if cs.take 3 == "nan".toList then some (0x7ff8000000000000, cs.drop 3)
+  else match pHexRun cs with
+    | some (bs, r) => if bs.length == 8 then some (hexNat bs, r) else none
+    | none => none
+
+mutual
+partial def pVal : P Val := fun cs =>
+  match cs with
+  | 'n' :: 'u' :: 'l' :: 'l' :: r => some (.null, r)
+  | 'f' :: ':' :: r => (pFloatBits r).map fun (b, r) => (.float b, r)
+  | 'c' :: ':' :: r =>
+    match pFloatBits r with
+    | some (re, ':' :: r2) => (pFloatBits r2).map fun (im, r3) => (.complex re im, r3)
+    | _ => none
+  | 's' :: 't' :: 'r' :: 'e' :: 'a' :: 'm' :: '-' :: 'i' :: 'n' :: 'f' :: r => some (.streamInf, r)
+  | 's' :: 't' :: 'r' :: 'e' :: 'a' :: 'm' :: '[' :: r => (pVals ']' r).map fun (xs, r) => (.stream xs, r)
+  | 's' :: ':' :: r => (pHexRun r).map fun (bs, r) => (.str (utf8Dec bs), r)
+  | 'b' :: ':' :: r => (pHexRun r).map fun (bs, r) => (.bytes bs, r)
+  | '[' :: r => (pVals ']' r).map fun (xs, r) => (.list xs, r)
+  | 'v' :: '[' :: r => (pVals ']' r).map fun (xs, r) => (.vector xs, r)
+  | '{' :: r => (pPairs r).map fun ((ks, vs), r) => (.dict ks vs, r)
+  | 'T' :: ':' :: r => (pTy r).map fun (t, r) => (.type t, r)
+  | 'F' :: r => (pNat r).map fun (n, r) => (.func n, r)
+  | '<' :: 'f' :: 'u' :: 'n' :: 'c' :: '>' :: r => some (.func 0, r)
+  | 'i' :: 'n' :: 's' :: 't' :: ':' :: 'S' :: r =>
+    match pNat r with
+    | some (sid, '(' :: r2) => (pVals ')' r2).map fun (xs, r) => (.inst sid xs, r)
+    | _ => none
+  | _ =>
+    -- integer or rational
+    let (neg, r) := match cs with
+      | '-' :: r => (true, r)
+      | _ => (false, cs)
+    match pNat r with
+    | some (n, '/' :: r2) =>
+      (match pNat r2 with
+       | some (d, r3) => some (.rat (mkRat (if neg then -(n : Int) else n) d), r3)
+       | none => none)
+    | some (n, r2) => some (.int (if neg then -(n : Int) else n), r2)
+    | none => none
+partial def pVals (close : Char) : P (List Val) := fun cs =>
+  match cs with
+  | c :: r => if c == close then some ([], r) else
+    match pVal cs with
+    | some (v, ',' :: r2) => (pVals close r2).map fun (vs, r3) => (v :: vs, r3)
+    | some (v, c2 :: r2) => if c2 == close then some ([v], r2) else none
+    | _ => none
+  | [] => none
+partial def pPairs : P (List Val × List Val) := fun cs =>
+  match cs with
+  | '}' :: r => some (([], []), r)
+  | _ =>
+    match pVal cs with
+    | some (k, ':' :: r) =>
+      (match pVal r with
+       | some (v, ',' :: r2) => (pPairs r2).map fun ((ks, vs), r3) => ((k :: ks, v :: vs), r3)
+       | some (v, '}' :: r2) => some (([k], [v]), r2)
+       | _ => none)
+    | _ => none
+end
+
+def parseCmp (s : String) : Option CmpOp :=
+  match s with
+  | "lt" => some .lt | "le" => some .le | "gt" => some .gt | "ge" => some .ge
+  | "eq" => some .eq | "ne" => some .ne | _ => none
+
+def parseBi (s : String) : Option Bi :=
+  match s with
+  | "plus" => some .plus | "minus" => some .minus | "times" => some .times
+  | "divide" => some .divide | "append" => some .append | "prepend" => some .prepend
+  | _ =>
+    if s.startsWith "cmp" then
+      ((s.drop 3).toString.splitOn ":" |>.filter (· ≠ "")).mapM parseCmp |>.map Bi.cmp
+    else if s.startsWith "other" then some (.other 0)
+    else none
+
+mutual
+partial def pPat : P Pat := fun cs =>
+  match cs with
+  | 'U' :: r => some (.underscore, r)
+  | 'I' :: r => (pNat r).map fun (n, r) => (.ident n [], r)
+  | 'X' :: r =>
+    match pNat r with
+    | some (n, '[' :: r2) => (pVals ']' r2).map fun (ixs, r3) => (.ident n ixs, r3)
+    | _ => none
+  | 'A' :: '(' :: r =>
+    match pPat r with
+    | some (p, ')' :: r2) => some (.anno p none, r2)
+    | some (p, ',' :: r2) =>
+      (match pVal r2 with
+       | some (v, ')' :: r3) => some (.anno p (some v), r3)
+       | _ => none)
+    | _ => none
+  | 'D' :: '(' :: r =>
+    match pPat r with
+    | some (p, ',' :: r2) =>
+      (match pVal r2 with
+       | some (v, ')' :: r3) => some (.withDefault p v, r3)
+       | _ => none)
+    | _ => none
+  | 'S' :: '(' :: r => (pPats r).map fun (ps, r) => (.seq ps false, r)
+  | 'L' :: '(' :: r => (pPats r).map fun (ps, r) => (.seq ps true, r)
+  | 'P' :: '(' :: r =>
+    match pPat r with
+    | some (p, ')' :: r2) => some (.splat p, r2)
+    | _ => none
+  | 'O' :: '(' :: r =>
+    match pPat r with
+    | some (a, ',' :: r2) =>
+      (match pPat r2 with
+       | some (b, ')' :: r3) => some (.or a b, r3)
+       | _ => none)
+    | _ => none
+  | 'N' :: '(' :: r =>
+    match pPat r with
+    | some (a, ',' :: r2) =>
+      (match pPat r2 with
+       | some (b, ')' :: r3) => some (.and a b, r3)
+       | _ => none)
+    | _ => none
+  | 'V' :: '(' :: r =>
+    match pVal r with
+    | some (v, ')' :: r2) => some (.lit v, r2)
+    | _ => none
+  | 'B' :: r =>
+    let name := r.takeWhile (· != '(')
+    match parseBi (String.ofList name), r.drop name.length with
+    | some b, '(' :: r2 => (pPats r2).map fun (ps, r3) => (.destr b ps, r3)
+    | _, _ => none
+  | 'C' :: r =>
+    match pNat r with
+    | some (sid, '(' :: r2) => (pPats r2).map fun (ps, r3) => (.destrStruct sid ps, r3)
+    | _ => none
+  | _ => none
+partial def pPats : P (List Pat) := fun cs =>
+  match cs with
+  | ')' :: r => some ([], r)
+  | _ =>
+    match pPat cs with
+    | some (p, ',' :: r) => (pPats r).map fun (ps, r2) => (p :: ps, r2)
+    | some (p, ')' :: r) => some ([p], r)
+    | _ => none
+end
+
+def parseOp (s : String) : Option Op :=
+  match s with
+  | "plus" => some .plus | "minus" => some .minus | "times" => some .times
+  | "floordiv" => some .floorDiv | "append" => some .append | "prepend" => some .prepend
+  | "concat" => some .concat | _ => none
+
+/-- `Sa(pat,val)` | `Se(pat,val)` | `So<op>(pat,val)` | `Sm<op>(pat,val)` | `Sw(pat,pat)` -/
+def pStmt : P Stmt := fun cs =>
+  match cs with
+  | 'S' :: 'w' :: '(' :: r =>
+    match pPat r with
+    | some (a, ',' :: r2) =>
+      (match pPat r2 with
+       | some (b, ')' :: r3) => some (.swap a b, r3)
+       | _ => none)
+    | _ => none
+  | 'S' :: k :: r =>
+    let name := r.takeWhile (· != '(')
+    match r.drop name.length with
+    | '(' :: r1 =>
+      match pPat r1 with
+      | some (p, ',' :: r2) =>
+        (match pVal r2 with
+         | some (v, ')' :: r3) =>
+           (match k, parseOp (String.ofList name) with
+            | 'a', _ => some (.assign p v, r3)
+            | 'e', _ => some (.assignEvery p v, r3)
+            | 'o', some op => some (.opAssign p op v, r3)
+            | 'm', some op => some (.opAssignEvery p op v, r3)
+            | _, _ => none)
+         | _ => none)
+      | _ => none
+    | _ => none
+  | _ => none
+
+def full {α} (p : P α) (s : String) : Option α :=
+  match p s.toList with
+  | some (a, []) => some a
+  | _ => none
+
+/-- `E(n,ty,val;n,ty,val;…)` -/
+partial def pCells : P (List Cell) := fun cs =>
+  match cs with
+  | ')' :: r => some ([], r)
+  | _ =>
+    match pNat cs with
+    | some (n, ',' :: r) =>
+      (match pTy r with
+       | some (t, ',' :: r2) =>
+         (match pVal r2 with
+          | some (v, ';' :: r3) => (pCells r3).map fun (cells, r4) => ({ name := n, ty := t, val := v } :: cells, r4)
+          | some (v, ')' :: r3) => some ([{ name := n, ty := t, val := v }], r3)
+          | _ => none)
+       | _ => none)
+    | _ => none
+
+def parseEnv (s : String) : Option Env :=
+  match s.toList with
+  | 'E' :: '(' :: r =>
+    match pCells r with
+    | some (cells, []) => some [cells]
+    | _ => none
+  | _ => none
+
+def tab : String := "\t"
+
+/-! ### what the model does not cover
+
+The arithmetic patterns `+` and `*` are modelled on exact numbers (ints, rationals).  A request
+whose pattern has such a node while a float or complex number occurs in the value or in a literal /
+default of the pattern is answered with the diagnostic `unmodelled`; the harness skips it. -/
+
+mutual
+partial def valHasFloat : Val → Bool
+  | .float _ | .complex _ _ => true
+  | .list xs | .vector xs | .stream xs | .inst _ xs => xs.any valHasFloat
+  | .dict ks vs => ks.any valHasFloat || vs.any valHasFloat
+  | _ => false
+end
+
+partial def patHasArith : Pat → Bool
+  | .destr .plus _ | .destr .times _ => true
+  | .destr _ args | .destrStruct _ args | .seq args _ => args.any patHasArith
+  | .anno p _ | .withDefault p _ | .splat p => patHasArith p
+  | .or a b | .and a b => patHasArith a || patHasArith b
+  | _ => false
+
+partial def patHasFloat : Pat → Bool
+  | .lit v => valHasFloat v
+  | .withDefault p d => patHasFloat p || valHasFloat d
+  | .destr _ args | .destrStruct _ args | .seq args _ => args.any patHasFloat
+  | .anno p _ | .splat p => patHasFloat p
+  | .or a b | .and a b => patHasFloat a || patHasFloat b
+  | _ => false
+
+def unmodelled (_e : Env) (vs : List Val) (ps : List Pat) : String :=
+  if ps.any patHasArith && (vs.any valHasFloat || ps.any patHasFloat)
+  then tab ++ "unmodelled" else ""
+
+/-! ### observations -/
+
+def dump (k : Nat) (e : Env) : String :=
+  "[" ++ joinWith "," ((List.range k).map fun x =>
+    match e.get? x with
+    | some c => renderVal c.val
+    | none => "U") ++ "]"
+
+def implRes (k : Nat) (r : Env × Out Unit) : String :=
+  match r with
+  | (e, .ok ()) => "ok " ++ dump k e
+  | (_, .throw) => "throw"
+  | (_, .panic) => "panic"
+
+def specRes (k : Nat) (r : Option Env) : String :=
+  match r with
+  | some e => "ok " ++ dump k e
+  | none => "throw"
+
+/-- `[[x0 is T0, …], [x0, …]]` for the pool names -/
+def observe (k : Nat) (e : Env) : String :=
+  "[[" ++ joinWith "," ((List.range k).map fun x =>
+    match e.get? x with
+    | some c => (match isType c.ty c.val with
+        | .ok true => "1" | .ok false => "0" | _ => "s:45")
+    | none => "s:45") ++ "]," ++ dump k e ++ "]"
+
+def raiseMark : String := "s:7261697365"
+
+def implHist (k : Nat) (rs : List (Env × Out Unit)) : String :=
+  if rs.any (fun r => r.2.isPanic) then "panic"
+  else "ok [" ++ joinWith "," (rs.map fun
+    | (e, .ok ()) => observe k e
+    | _ => raiseMark) ++ "]"
+
+def specHist (k : Nat) (rs : List (Option Env)) : String :=
+  "ok [" ++ joinWith "," (rs.map fun
+    | some e => observe k e
+    | none => raiseMark) ++ "]"
+
+
+def handle (args : List String) : String :=
+  match args with
+  | ["fresh", k, env, val, pat] =>
+    match k.toNat?, parseEnv env, full pVal val, full pPat pat with
+    | some k, some e, some v, some p =>
+      implRes k (assign ([] :: e) p (some .any) v) ++ tab ++ specRes k (specAssign ([] :: e) p (some .any) v)
+        ++ unmodelled e [v] [p]
+    | _, _, _, _ => "bad-op"
+  | ["assign", k, env, val, pat] =>
+    match k.toNat?, parseEnv env, full pVal val, full pPat pat with
+    | some k, some e, some v, some p =>
+      implRes k (assign e p none v) ++ tab ++ specRes k (specAssign e p none v) ++ unmodelled e [v] [p]
+    | _, _, _, _ => "bad-op"
+  | "switch" :: k :: env :: val :: pats =>
+    match k.toNat?, parseEnv env, full pVal val, pats.mapM (full pPat) with
+    | some k, some e, some v, some ps =>
+      let i := match switchArm e v ps 0 with
+        | .ok (i, ee) => s!"ok {i};" ++ dump k ee
+        | .throw => "throw"
+        | .panic => "panic"
+      let s := match specSwitch e v ps 0 with
+        | some (i, ee) => s!"ok {i};" ++ dump k ee
+        | none => "throw"
+      i ++ tab ++ s ++ unmodelled e [v] ps
+    | _, _, _, _ => "bad-op"
+  | "bind" :: k :: env :: vals :: pats =>
+    match k.toNat?, parseEnv env, full pVal vals, pats.mapM (full pPat) with
+    | some k, some e, some (.list vs), some ps =>
+      implRes k (bindParams e ps vs) ++ tab ++ specRes k (specBindParams e ps vs) ++ unmodelled e vs ps
+    | _, _, _, _ => "bad-op"
+  | "hist" :: k :: env :: stmts =>
+    match k.toNat?, parseEnv env, stmts.mapM (full pStmt) with
+    | some k, some e, some ss => implHist k (execHistory e ss) ++ tab ++ specHist k (specHistory e ss)
+    | _, _, _ => "bad-op"
+  | ["istype", ty, val] =>
+    match full pTy ty, full pVal val with
+    | some t, some v =>
+      (isType t v).render (fun b => if b then "1" else "0") ++ tab ++
+        (specIs v t).render (fun b => if b then "1" else "0")
+    | _, _ => "bad-op"
+  | ["typeof", val] =>
+    match full pVal val with
+    | some v => "ok " ++ tyName (typeOf v) ++ tab ++ "ok " ++ tyName (typeOf v)
+    | none => "bad-op"
+  | _ => "bad-op"
+
 end Noulith.DriverC12
